@@ -8,10 +8,16 @@ import vlib
 WORK = ("load", "poll", "read", "exec", "write", "close", "timeout")
 
 
-def monitor(meta, out):
+def monitor(meta, out, designated=None):
     """judge the implementation's own trace"""
     stat, cred = meta
     lines = out or []
+    if designated is not None:
+        # "the non-root owner of the designated path": the path that is examined is the one given with -d (or the
+        # working directory when none is given), whatever other options are present or absent
+        seen = [vlib.unhexs(l.split()[1]) for l in lines if l.startswith("stat ") and len(l.split()) > 1]
+        if any(x != designated for x in seen):
+            return "the identity to switch to was taken from '%s', the designated path is '%s'" % ([x for x in seen if x != designated][0], designated)
     if not lines or not lines[-1].startswith(("exit", "end")):
         return "main did not finish: %s" % lines[-2:]
     asroot = [l for l in lines if l.startswith("asroot ")]
@@ -72,11 +78,21 @@ def main(rep):
             cases.append(("p%d" % n, mc.main_case(args=args, slots=[mc.slot(exe=1)], cred=cr + ("ok", "ok", "ok")), (("ok", 1000, 100), cr + ("ok", "ok", "ok"))))
             n += 1
             nmissing += 1
+    # the designated path given explicitly, with and without the other options
+    designated = {}
+    real = {"/a": "/a", "/b": "/b", ".": "/cwd", "/": "/"}
+    for args in (["-d", "/own"], ["-d", "/own", "-w", "/a"], ["-d", "/own", "-e", "/b"], ["-w", "/a", "-d", "/own"], ["-w", "/a"], ["-e", "/b"], [],
+                 ["-d", "/own", "-w", "/a", "-e", "/b"], ["-c", "/cfg", "-d", "/own"]):
+        for st in (("ok", 1000, 100), ("ok", 0, 0), ("fail", 0, 0)):
+            cid = "p%d" % n
+            cases.append((cid, mc.main_case(args=args, real=real, stat=st, slots=[mc.slot(exe=1)]), (st, (0, 0, 3, "ok", "ok", "ok"))))
+            designated[cid] = "/own" if "-d" in args else "."
+            n += 1
     if exe_impl:
         impl, model, problems = vlib.correspond(exe_impl, exe_model, "main", [(c, s) for c, s, _ in cases], sandbox=True)
         validated = 0
         for cid, script, meta in cases:
-            bad = monitor(meta, impl.get(cid))
+            bad = monitor(meta, impl.get(cid), designated.get(cid))
             if bad:
                 rep.violation("privileges", {"case": cid, "script": script.split("\n"), "implementation": impl.get(cid), "model": model.get(cid), "what": bad})
                 found = True
@@ -123,10 +139,10 @@ def main(rep):
     rep.cov["evaluations"] = len(cases)
     rep.cov["distinct_nontrivial"] = len(cases)
     rep.cov["exhaustive"] = True
-    rep.cov["input_distribution"] = {"stat x switches x initial credentials": len(cases) - 6 - nmissing, "failing start-up calls": 6, "missing watch roots": nmissing}
+    rep.cov["input_distribution"] = {"stat x switches x initial credentials": len(cases) - 6 - nmissing - len(designated), "failing start-up calls": 6, "missing watch roots": nmissing, "explicit designated path": len(designated)}
     rep.cov["rule"] = ("exhaustive: stat outcome {fails, owner 0:0, 0:5, 5:0, 1000:100} x {ok, fail, succeeds-without-effect}^3 for setgroups/setgid/setuid x "
                        "initial credentials {0:0 with groups, 0:0 without, 1000:100, 0:100, 1000:0} on the real main() with every call scripted, two event slots behind; "
-                       "plus failures of fanotify_init, the mount table, mount, fanotify_mark, load_handler, watch roots that do not exist, and every allocation of main() failing in turn in seven start-ups whose drop must fail closed (implementation only); the monitor checks the order, the credentials at load, and that no interposed call that "
+                       "plus failures of fanotify_init, the mount table, mount, fanotify_mark, load_handler, watch roots that do not exist, the designated path given with -d in every combination with the other options (the path examined must be that one), and every allocation of main() failing in turn in seven start-ups whose drop must fail closed (implementation only); the monitor checks the order, the credentials at load, and that no interposed call that "
                        "modifies the file system (mkdir, open with O_CREAT, link, rename, unlink, ...) is attempted while the user id or the group id is zero")
     rep.cov["samples"] = [cases[7][1].split("\n")]
     vlib.conclude_proofs(rep, found)
